@@ -1,4 +1,5 @@
 fn main() {
+    println!("cargo::rustc-check-cfg=cfg(wild_verif)");
     if std::env::var("CARGO_FEATURE_PLUGINS").is_ok() {
         cc::Build::new()
             .file("src/plugin_message_shim.c")
